@@ -9,7 +9,10 @@
  *      even one more byte goes through coap_pdu_check_resize -> coap_pdu_resize -> realloc and
  *      every stale pointer / over-long memmove lands outside a live allocation.
  * The PDUs have no session (coap_update_token then leaves the header alone); the header is
- * written once at the end by coap_pdu_encode_header.  */
+ * written once at the end by coap_pdu_encode_header.
+ * After every step the accessor dump is followed by b=<token[0..used_size)>.
+ * X <mid'> <smax> <bytes> <filter>: coap_pdu_duplicate on a UDP client session whose next
+ * message id is <mid'> and whose coap_session_max_pdu_size is <smax>.  */
 #include "coap3/coap_libcoap_build.h"
 #include "common/util.h"
 #include "common/dump.h"
@@ -43,6 +46,52 @@ static void exact_fit(coap_pdu_t *pdu) {
   else if (pdu->actual_token.length < COAP_TOKEN_EXT_2B_BIAS) pdu->actual_token.s = &pdu->token[1];
   else pdu->actual_token.s = &pdu->token[2];
   pdu->alloc_size = need;
+}
+
+static coap_context_t *g_ctx;
+static coap_session_t *g_sess;
+
+static void dump_b(FILE *o, const coap_pdu_t *pdu) {
+  fputc('[', o);
+  dump_pdu(o, pdu);
+  fputs("] b=", o);
+  show_bytes(o, pdu->token, pdu->used_size);
+}
+
+static void do_dup(coap_pdu_t *pdu, int i) {
+  coap_opt_filter_t f;
+  coap_opt_filter_t *fp = NULL;
+  coap_pdu_t *d;
+  size_t n;
+  uint8_t *b;
+  unsigned mid = (unsigned)atoi(vtok[i]);
+  size_t smax = (size_t)atol(vtok[i + 1]);
+  if (!g_sess) { fputs(" || dup=NOSESSION", stdout); return; }
+  coap_session_set_mtu(g_sess, (unsigned)(smax + 4));
+  if (coap_session_max_pdu_size(g_sess) != smax) { fputs(" || dup=BADSMAX", stdout); return; }
+  g_sess->tx_mid = (uint16_t)(mid - 1);
+  b = bytes_of_tok(vtok[i + 2], &n);
+  if (strcmp(vtok[i + 3], "N")) {
+    char *q = vtok[i + 3];
+    coap_option_filter_clear(&f);
+    fp = &f;
+    if (strcmp(q, "-")) {
+      while (*q) {
+        if (!coap_option_filter_set(&f, (coap_option_num_t)strtol(q, &q, 10))) {
+          fputs(" || dup=FILTERFULL", stdout);
+          free(b);
+          return;
+        }
+        if (*q == ',') q++;
+      }
+    }
+  }
+  d = coap_pdu_duplicate(pdu, g_sess, n, b, fp);
+  free(b);
+  if (!d) { fputs(" || dup=NULL", stdout); return; }
+  fputs(" || dup=", stdout);
+  dump_b(stdout, d);
+  coap_delete_pdu(d);
 }
 
 static void c04(void) {
@@ -83,7 +132,7 @@ static void c04(void) {
       rets[nr++] = r ? '1' : '0';
     }
     rets[nr] = 0;
-    printf("start=%s [", nr ? rets : "-");
+    printf("start=%s ", nr ? rets : "-");
   } else {
     /* W: concatenate the byte tokens, parse */
     size_t total = 0, cap = 64;
@@ -124,12 +173,11 @@ static void c04(void) {
     }
     /* alloc_size = used_size after coap_pdu_parse, so alloc_size <= max_size holds */
     pdu->max_size = mx;
-    fputs("start=P [", stdout);
+    fputs("start=P ", stdout);
   }
-  dump_pdu(stdout, pdu);
-  fputs("]", stdout);
+  dump_b(stdout, pdu);
   if (i < vntok && vtok[i][0] == 'E') i++;
-  while (i < vntok) {
+  while (i < vntok && vtok[i][0] != 'X') {
     size_t n = 0;
     uint8_t *b = NULL;
     int r = 0;
@@ -155,9 +203,14 @@ static void c04(void) {
       break;
     }
     if (b) free(b);
-    printf(" | %d [", r);
-    dump_pdu(stdout, pdu);
-    fputs("]", stdout);
+    printf(" | %d ", r);
+    dump_b(stdout, pdu);
+  }
+  /* the duplicate first: coap_pdu_encode_header below forces the type to CON on reliable
+   * transports */
+  if (i < vntok && vtok[i][0] == 'X') {
+    if (i + 4 < vntok) do_dup(pdu, i + 1);
+    else fputs(" ERROR bad dup args", stdout);
   }
   fputs(" || wire=", stdout);
   {
@@ -180,10 +233,18 @@ static void c04(void) {
 }
 
 int main(void) {
+  coap_address_t dst;
+  coap_startup();
   coap_set_log_level(COAP_LOG_EMERG);
+  g_ctx = coap_new_context(NULL);
+  coap_address_init(&dst);
+  dst.addr.sin.sin_family = AF_INET;
+  dst.addr.sin.sin_port = htons(5683);
+  dst.addr.sin.sin_addr.s_addr = htonl(0x7f000001);
+  if (g_ctx) g_sess = coap_new_client_session(g_ctx, NULL, &dst, COAP_PROTO_UDP);
   while (next_case(stdin)) {
     if (vntok == 0) { puts(""); continue; }
-    if (!strcmp(vtok[0], "c04")) c04();
+    if (!strcmp(vtok[0], "c04") || !strcmp(vtok[0], "c04x")) c04();
     else puts("ERROR unknown command");
     fflush(stdout);
   }
